@@ -109,6 +109,8 @@ func (g *conGen) read(allowSnap bool, allowIter bool) ConOp {
 		op.WV = g.r.Bool(0.5)
 	case "min", "max":
 		op.WV = g.r.Bool(0.5)
+	case "allocstats":
+		op.N = g.r.Intn(2)
 	case "visit":
 		op.Key, op.KeyNil = g.target(cc)
 		op.Desc = g.r.Bool(0.4)
